@@ -2,7 +2,9 @@ package main
 
 import (
 	"fmt"
+	"go/token"
 	"go/types"
+	"sort"
 	"strings"
 
 	"golang.org/x/tools/go/ssa"
@@ -232,31 +234,56 @@ func c03Remove(r *Run, fn *ssa.Function) {
 		r.Fail("removeExtension:matched-index", r.Where(sts[0]), "undecided: the removed index is not the loop-carried match position")
 		return
 	}
+	if isInduction(ph) {
+		r.Fail("removeExtension:matched-index", r.Where(sts[0]), "undecided: the removed index is a loop counter itself, not a recorded match position")
+		return
+	}
+	// the values the index can hold: the φ-web is followed down to constants and
+	// loop positions (a loop counter is a value, not a merge: `for i, x := range xs`
+	// and `for i := 0; i < len(xs); i++` both give the position it@N)
 	okIdx := true
 	var matchIdx string
-	for _, l := range PhiLeaves(ph, nil) {
-		d := r.D.D(l)
+	leaves := loopPosLeaves(ph)
+	var posLeaves []phiLeaf
+	for _, l := range leaves {
+		d := r.D.D(l.v)
 		if d == "-1" {
 			continue
 		}
-		if !glob("it@*", d) {
+		if !isLoopPos(d) || (matchIdx != "" && d != matchIdx) {
 			okIdx = false
 		}
 		matchIdx = d
+		posLeaves = append(posLeaves, l)
 	}
 	r.Check("removeExtension:matched-index", okIdx && matchIdx != "", r.Where(sts[0]), "the removed index takes only the values −1 and the loop position "+matchIdx)
+	if okIdx && matchIdx != "" {
+		// that loop visits every element of the extension list
+		ok, why := loopSweeps(r, fn, matchIdx, "new:x509.tbsCertificate#0.Extensions", true)
+		r.Check("removeExtension:loop-covers-list", ok, r.Where(sts[0]), "the loop whose position is recorded visits every extension of the parsed TBS: "+why)
+	}
 	// the match test: Extensions[i].Id.Equal(oid) for that i
 	eq := CallsTo(fn, "(asn1.ObjectIdentifier).Equal")
 	if len(eq) == 1 {
 		r.ExpectArg(eq[0], "removeExtension:match.oid", 1, "p1")
-		a := baseAlloc(CallArgs(eq[0])[0])
-		src := ""
-		if a != nil {
-			for _, st := range r.StoresTo(fn, r.D.allocName(a)) {
-				src = r.D.D(st.Val)
+		// the element may be read in place or through the per-iteration copy of a range loop
+		src := elemTerm(r, fn, CallArgs(eq[0])[0])
+		r.Check("removeExtension:match.element", okIdx && src == "new:x509.tbsCertificate#0.Extensions["+matchIdx+"].Id", r.Where(eq[0]), "the OID compared is "+src+" (that of the element at the recorded position)")
+		// the position is recorded only when the comparison said "equal" (and is recorded then)
+		if eqv := eq[0].Value(); eqv != nil && len(posLeaves) > 0 {
+			key := r.D.Classify(eqv).Key
+			for _, v := range []string{"F", "T"} {
+				reach := r.D.Walk(fn, Sigma{key: v}, nil, nil)
+				r.Valuations++
+				taken := false
+				for _, l := range posLeaves {
+					if reach.Edges[[2]int{l.phi.Block().Preds[l.edge].Index, l.phi.Block().Index}] {
+						taken = true
+					}
+				}
+				r.Check("removeExtension:index-recorded-iff-matched["+v+"]", taken == (v == "T"), r.Where(eq[0]), fmt.Sprintf("OID comparison = %s ⇒ position recorded: %v", v, taken))
 			}
 		}
-		r.Check("removeExtension:match.element", src == "new:x509.tbsCertificate#0.Extensions["+matchIdx+"]", r.Where(eq[0]), "the OID compared is that of element "+src)
 		// not matched ⇒ index not taken; matched twice ⇒ error
 		// a second match (index already set) inside the loop ⇒ error, nothing removed
 		n2 := 0
@@ -283,22 +310,10 @@ func c03Remove(r *Run, fn *ssa.Function) {
 	} else {
 		r.Fail("removeExtension:match", r.FnPos(fn), fmt.Sprintf("%d OID comparisons", len(eq)))
 	}
-	// absent ⇒ error: after the loop with index == −1
-	for _, b := range r.blocksTesting(fn, func(ci *CondInfo) bool { return ci.Kind == "ord" && (ci.A == "-1" || ci.B == "-1") }) {
-		if b.Comment == "rangeindex.done" || strings.Contains(b.Comment, "done") {
-			ifi := b.Instrs[len(b.Instrs)-1].(*ssa.If)
-			ci := r.D.Classify(ifi.Cond)
-			reach := r.D.Walk(fn, Sigma{ci.Key: "="}, b, nil)
-			r.Valuations++
-			ok := !reach.Has(sts[0])
-			for _, ret := range reachableReturns(fn, reach) {
-				if errKind(ret.Results[1]) == "nil" {
-					ok = false
-				}
-			}
-			r.Check("removeExtension:absent-is-error", ok, r.Where(ifi), "no extension of the requested type ⇒ error, nothing removed")
-		}
-	}
+	// absent ⇒ error: while the index still holds −1 neither the removal nor a success
+	// return executes (and they do otherwise); a missing test leaves the obligation undecided
+	absentKey := ordAtom("-1", r.D.D(idx), map[string]bool{}).Key
+	r.MustGuard(fn, "removeExtension:absent-is-error", absentKey, "=", append([]ssa.Instruction{sts[0]}, successReturns(fn)...), "removal of an extension / success return")
 	// the result is the re-marshalled, modified struct
 	for _, ret := range Returns(fn) {
 		if errKind(ret.Results[1]) == "nil" {
@@ -457,33 +472,48 @@ func c03Build(r *Run, fn *ssa.Function) {
 
 	// AKI decision table
 	var keyAtKey, issKey string
-	for k, ci := range r.D.AtomsOf(fn) {
+	atoms := r.D.AtomsOf(fn)
+	for k, ci := range atoms {
 		if ci.Kind == "ord" && ci.A == "0" && glob("phi(-1|it@*)", ci.B) {
 			keyAtKey = k
 		}
-		if ci.Kind == "nil" && glob("nil?phi(new:x509/pkix.Extension#*.Value|nil)", k) {
-			issKey = k
+	}
+	// the pre-issuer's AKI value is the raw Value of that element of its extension list whose
+	// Id equals the AKI OID (read in place or through the per-iteration copy of a range loop);
+	// it is nil when there is none
+	issSrc := ""
+	for _, eq := range CallsTo(fn, "(asn1.ObjectIdentifier).Equal") {
+		if r.D.D(CallArgs(eq)[1]) != "g:x509.OIDExtensionAuthorityKeyId" {
+			continue
+		}
+		src := elemTerm(r, fn, CallArgs(eq)[0])
+		if !glob("p1.Extensions[it@*].Id", src) || !isLoopPos(strings.TrimSuffix(strings.TrimPrefix(src, "p1.Extensions["), "].Id")) {
+			continue
+		}
+		parts := []string{strings.TrimSuffix(r.D.D(CallArgs(eq)[0]), ".Id") + ".Value", "nil"}
+		sort.Strings(parts)
+		k := "nil?phi(" + strings.Join(parts, "|") + ")"
+		if ci := atoms[k]; ci != nil && ci.Kind == "nil" {
+			issKey, issSrc = k, strings.TrimSuffix(src, ".Id")+".Value"
 		}
 	}
 	if keyAtKey == "" || issKey == "" {
 		r.Fail("BuildPrecertTBS:aki-table", r.FnPos(fn), fmt.Sprintf("undecided: AKI decision atoms not found (%q, %q)", keyAtKey, issKey))
 		return
 	}
-	// the pre-issuer's AKI value is the raw Value of its AKI extension
-	issVal := strings.TrimPrefix(issKey, "nil?")
-	okSrc := false
+	// the position replaced / removed is that of the precertificate's own AKI extension:
+	// the element of the parsed TBS's extension list, at the recorded loop position, whose
+	// Id is compared with the AKI OID, in a loop over the whole list
+	keyPos := strings.TrimSuffix(strings.TrimPrefix(atoms[keyAtKey].B, "phi(-1|"), ")")
+	okPos, whyPos := false, "no comparison of "+tbs+".Extensions["+keyPos+"].Id with the AKI OID"
 	for _, eq := range CallsTo(fn, "(asn1.ObjectIdentifier).Equal") {
-		a := baseAlloc(CallArgs(eq)[0])
-		if a == nil || r.D.D(CallArgs(eq)[1]) != "g:x509.OIDExtensionAuthorityKeyId" {
-			continue
-		}
-		for _, st := range r.StoresTo(fn, r.D.allocName(a)) {
-			if glob("p1.Extensions[it@*]", r.D.D(st.Val)) && strings.Contains(issVal, r.D.allocName(a)+".Value") {
-				okSrc = true
-			}
+		if r.D.D(CallArgs(eq)[1]) == "g:x509.OIDExtensionAuthorityKeyId" && isLoopPos(keyPos) && elemTerm(r, fn, CallArgs(eq)[0]) == tbs+".Extensions["+keyPos+"].Id" {
+			okPos, whyPos = loopSweeps(r, fn, keyPos, tbs+".Extensions", false)
 		}
 	}
-	r.Check("BuildPrecertTBS:aki-source", okSrc, r.FnPos(fn), "the replacement value is the raw Value of the pre-issuer's authorityKeyIdentifier extension: "+issVal)
+	r.Check("BuildPrecertTBS:aki-position", okPos, r.FnPos(fn), "the AKI position is that of the TBS extension whose Id equals the AKI OID: "+whyPos)
+	issVal := strings.TrimPrefix(issKey, "nil?")
+	r.Check("BuildPrecertTBS:aki-source", issSrc != "", r.FnPos(fn), "the replacement value is the raw Value of the pre-issuer's authorityKeyIdentifier extension: "+issVal+" = "+issSrc+" or nil")
 	type outcome struct{ inplace, removed, appended bool }
 	for _, row := range []struct {
 		name       string
@@ -694,4 +724,169 @@ func c03SCTList(r *Run) {
 	f2 := r.P.LookupField("x509.Certificate.RawSCT")
 	r.Check("types:SCTList", f1 != nil && TypeName(f1.Type()) == "x509.SignedCertificateTimestampList", "-", "Certificate.SCTList has the writer's list type")
 	r.Check("types:RawSCT", f2 != nil && TypeName(f2.Type()) == "[]byte", "-", "Certificate.RawSCT is []byte (OCTET STRING)")
+}
+
+// ---- loop positions and elements (shared by C03.R2 / C03.R9) --------------------
+
+// phiLeaf is one value flowing into a φ-web, with the φ and edge it enters through.
+type phiLeaf struct {
+	v    ssa.Value
+	phi  *ssa.Phi
+	edge int
+}
+
+// loopPosLeaves follows a φ-web down to its incoming values, treating a loop
+// counter (induction φ) as a value of its own rather than as a merge of its
+// start and step: the position of the loop, whichever way the loop is written.
+func loopPosLeaves(ph *ssa.Phi) []phiLeaf {
+	var out []phiLeaf
+	seen := map[*ssa.Phi]bool{}
+	var visit func(p *ssa.Phi)
+	visit = func(p *ssa.Phi) {
+		if seen[p] {
+			return
+		}
+		seen[p] = true
+		for i, e := range p.Edges {
+			if q, ok := e.(*ssa.Phi); ok && !isInduction(q) {
+				visit(q)
+				continue
+			}
+			out = append(out, phiLeaf{e, p, i})
+		}
+	}
+	visit(ph)
+	return out
+}
+
+// isLoopPos: the term is exactly a loop position it@N.
+func isLoopPos(d string) bool {
+	if !strings.HasPrefix(d, "it@") || len(d) == 3 {
+		return false
+	}
+	for _, c := range d[3:] {
+		if c < '0' || c > '9' {
+			return false
+		}
+	}
+	return true
+}
+
+// elemTerm renders the place a value is read from, seeing through a
+// per-iteration copy: when the value lives in a local all of whose whole-value
+// stores have one origin (the variable of a range loop, or `x := xs[i]`), that
+// origin replaces the local in the term.  &xs[i] and &x with x := xs[i] thus
+// both render xs[i] (the pointee), xs[i].f and x.f both xs[i].f.
+func elemTerm(r *Run, fn *ssa.Function, v ssa.Value) string {
+	d := r.D.D(v)
+	if in, ok := stripAddr(d); ok {
+		d = in
+	}
+	a := baseAlloc(v)
+	if a == nil {
+		return d
+	}
+	name := r.D.allocName(a)
+	if !strings.HasPrefix(d, name) {
+		return d
+	}
+	src := ""
+	for _, st := range r.StoresTo(fn, name) {
+		s := r.D.D(st.Val)
+		if src != "" && s != src {
+			return d
+		}
+		src = s
+	}
+	if src == "" {
+		return d
+	}
+	// no partial update of the copy between the snapshot and the use
+	for _, st := range r.StoresTo(fn, "&("+name+".*") {
+		_ = st
+		return d
+	}
+	return src + d[len(name):]
+}
+
+// loopSweeps decides whether the loop with position term pos (it@N) visits every
+// index 0 … len(list)−1 exactly once: in ascending order, or — when backward is
+// allowed — in descending order.  A range loop does so by construction of its
+// lowering; an index loop must start at 0 (len−1), step by +1 (−1) on every way
+// round and stay in the loop exactly while pos < len(list) (pos ≥ 0).
+func loopSweeps(r *Run, fn *ssa.Function, pos, list string, backward bool) (bool, string) {
+	n, err := parseInt(strings.TrimPrefix(pos, "it@"))
+	if err != nil || n < 0 || int(n) >= len(fn.Blocks) {
+		return false, "undecided: no loop header for " + pos
+	}
+	hdr := fn.Blocks[n]
+	var ctr *ssa.Phi
+	for _, in := range hdr.Instrs {
+		if p, ok := in.(*ssa.Phi); ok && isInduction(p) {
+			if d := r.D.D(p); d == pos || (isRangePre(p) && d == "(-1 + "+pos+")") {
+				if ctr != nil {
+					return false, "undecided: two counters in the loop header"
+				}
+				ctr = p
+			}
+		}
+	}
+	if ctr == nil || len(hdr.Instrs) == 0 {
+		return false, "undecided: counter of " + pos + " not found"
+	}
+	ifi, ok := hdr.Instrs[len(hdr.Instrs)-1].(*ssa.If)
+	if !ok || !blockReachesBlock(hdr.Succs[0], hdr) || blockReachesBlock(hdr.Succs[1], hdr) {
+		return false, "undecided: the loop header does not decide between body and exit"
+	}
+	ci := r.D.Classify(ifi.Cond)
+	lenT := "len(" + list + ")"
+	// ascending: pos < len(list)
+	asc := ci.Kind == "ord" && ((ci.A == pos && ci.B == lenT && ci.True["<"] && !ci.True["="]) || (ci.A == lenT && ci.B == pos && ci.True[">"] && !ci.True["="]))
+	// descending: pos >= 0 (0 <= pos, −1 < pos)
+	desc := ci.Kind == "ord" && ((ci.A == "0" && ci.B == pos && ci.True["<"] && ci.True["="] && !ci.True[">"]) || (ci.A == "-1" && ci.B == pos && ci.True["<"] && !ci.True["="] && !ci.True[">"]))
+	if isRangePre(ctr) {
+		if asc {
+			return true, "range over " + list
+		}
+		return false, "the loop ranges over something else: " + ci.Key
+	}
+	step, start := int64(0), ""
+	for _, e := range ctr.Edges {
+		if b, isB := e.(*ssa.BinOp); isB && b.X == ssa.Value(ctr) {
+			c, isC := r.D.Lin(b.Y, nil).isConst()
+			if !isC {
+				return false, "undecided: step " + r.D.D(e)
+			}
+			if b.Op == token.SUB {
+				c = -c
+			}
+			if step != 0 && step != c {
+				return false, "the counter advances by different steps"
+			}
+			step = c
+			continue
+		}
+		s := r.D.Lin(e, nil).String()
+		if start != "" && s != start {
+			return false, "the counter has different starting values"
+		}
+		start = s
+	}
+	switch {
+	case asc && step == 1 && start == "+0":
+		return true, "index loop 0 … " + lenT + "−1"
+	case backward && desc && step == -1 && start == "+"+lenT+" -1":
+		return true, "index loop " + lenT + "−1 … 0"
+	}
+	return false, fmt.Sprintf("counter starts at %s, steps by %d, continues while %s %v", start, step, ci.Key, keysOfBool(ci.True))
+}
+
+func keysOfBool(m map[string]bool) []string {
+	var out []string
+	for _, k := range []string{"<", "=", ">", "T", "F", "nil", "non"} {
+		if m[k] {
+			out = append(out, k)
+		}
+	}
+	return out
 }
